@@ -50,6 +50,7 @@ SUBJ = {
  "F62": "JSON documents given to the library API had floats read one ulp off",
  "F65": "a range inside a list literal never matched",
  "F66": "the structured report rewrote newlines in the custom message",
+ "F67": "a line break between a key capture",
  "F31": "`test` listed the rules of a test case in a different order",
 }
 log = subprocess.run(["git", "-C", "/repo", "log", "--format=%h %s"], capture_output=True, text=True).stdout.splitlines()
